@@ -410,6 +410,10 @@ Qed.
 Lemma jpl_default_voltage : jpl_calls_use_default_secondary_voltage = true.
 Proof. reflexivity. Qed.
 
+(* every public constructor exported by the sites package is dumped (factories and aliases) *)
+Lemma all_constructors_dumped : unknown_site_constructors = O.
+Proof. reflexivity. Qed.
+
 Lemma sites_ok :
   check_family sites_caltech = true /\ check_family sites_jpl = true /\ check_family sites_office001 = true.
 Proof. repeat split; vm_compute; reflexivity. Qed.
